@@ -44,6 +44,10 @@ CHECKS = {
  "C17": dict(engine="A", cat="fault_enumeration", design="5/C17",
    tech="TLC-enumerated fault schedules injected by a faulting Target into replays of TLC-generated programs; TLC trace validation of the faulted run + equality with a run on a target that skips the same operations",
    text="TLC enumerates fault schedules (every set of at most 1 (thorough 2) ordinals among the first 7 (thorough 9) target operations of a run, ordinal 0 being Runtime::resolve's root probe) and the target-touching programs of the C08/C09 grammars (queries, assignments to event and metadata, del, exists, infallible assignment to paths). For every (program, event, schedule) the harness runs the real interpreter against a Target that rejects exactly those operations and against one that silently skips them. Trace validation walks the faulted run event by event (a rejected read must behave as null, the machine must go on exactly as the rules say, no panic event), requires a failed root probe to end the run with an error before anything is evaluated, and requires result, final event, metadata and variables of the faulted run to equal the skip run's."),
+ "C34": dict(engine="A", cat="model_checking", design="5/C34",
+   tech="TLC-generated programs with discarded statements; the harness deletes every statement the real compiler flags as an unused result, recompiles and runs both programs; TLC evaluates the Removable predicate of TraceUnused.tla on the recorded pairs of runs",
+   text="TLC enumerates programs whose middle statement (at root level and inside a block; thorough: two of them) is a discarded expression from a grammar of 45 shapes - literals, variables, queries, objects, arrays, pure calls, arithmetic/comparison/||/?? operators, not, groups, blocks, ifs, del/exists, closures - with and without an assignment or del hidden in an operand, argument, member, predicate or closure body. For every real warning `unused ...` (not `unused variable`) whose label covers exactly one statement, the statement is deleted, the program recompiled, and both are run on every event; TLC checks: if the compiler typed the statement infallible, final event, metadata and success/failure are equal; otherwise whenever the original succeeds the edited one succeeds with the same final event.",
+   note="trusted: the harness' renderer and the statement deletion (re-rendering the AST without the statement); a warning whose span is not exactly one statement, or whose edited program does not compile, is counted as unjudged"),
 }
 
 NA = {
